@@ -157,6 +157,24 @@ def atom_info(E, l, r):
                 short=sg and not l_long and not r_long, widen=sg and not l_long and r_long)
 
 
+def narrow_leaf(E, v):
+    """the operand mentions a value of at most 4 bytes (variable format or w/sw view): makes W = 32"""
+    if isinstance(v, E.Register):
+        return not v.long
+    if isinstance(v, E.Constant):
+        return False
+    if isinstance(v, E.Unary):
+        return narrow_leaf(E, v.arg)
+    if isinstance(v, E.Memory):
+        return v.fmt not in "Qq"
+    return narrow_leaf(E, v.left) or narrow_leaf(E, v.right)
+
+
+def const_left_32(E, v, w):
+    """computed in 32 bits (the leftmost operand is a constant) although every variable/register in it is 64 bits"""
+    return (not w) and not narrow_leaf(E, v) and not isinstance(v, E.Constant)
+
+
 def is_short_reg(E, v):
     return isinstance(v, E.Register) and not v.long
 
@@ -174,6 +192,8 @@ def atom_classes(E, l, r):
     c01.tree_classes(E, l, a["l_long"], False, None, out)
     if not a["r_imm"]:
         c01.tree_classes(E, r, a["r_width"], False, None, out)
+    if const_left_32(E, l, a["l_long"]) or (not a["r_imm"] and const_left_32(E, r, a["r_width"])):
+        out.add("const-left-32")
     return out
 
 
@@ -328,6 +348,8 @@ def operand(rng, prog, kind=None, compound=0.2):
     r = rng.random()
     if r < 0.6:
         b = leaf() if rng.random() < 0.6 else ["c", rng.choice(COND_CONSTS)]
+        if rng.random() < 0.15:
+            return [rng.choice(OPERAND_OPS), ["c", rng.choice(COND_CONSTS)], leaf()]     # int (op) expr
         return [rng.choice(OPERAND_OPS), leaf(), b]
     if r < 0.8:
         return ["neg", leaf()]
